@@ -19,7 +19,7 @@ PARALLEL = 6
 IMPORTS = "From Verif Require C01.Model C04.Model.\nFrom Verif Require Import C09.Model C09.Spec C09.Corr.\nFrom VerifGen Require Import C09Abbrev."
 CASE_TYPE = "C09.Corr.case"
 RUNNER = "C09.Corr.run"
-FINDING_CLASSES = {1: "C09-F1", 2: "C09-F2"}  # both fixed: seeing a class again is a violation
+FINDING_CLASSES = {1: "C09-F1", 2: "C09-F2", 3: "C09-F3"}  # F1, F2 fixed: seeing them again is a violation; F3 open
 RULE = ("complete lattice sign_response x sign_assertion given as argument (None/True/False) x as configuration "
         "(unset/True/False/'true'/'false'/''/'yes') = 441 cells, each Response also shown to an SP; complete product "
         "NameIDPolicy (absent, or Format in None/''/transient/persistent/emailAddress/unspecified x SPNameQualifier in "
@@ -42,11 +42,21 @@ RULE = ("complete lattice sign_response x sign_assertion given as argument (None
         "(2 seeded (instant, SP clock edge) picks per cell, deep tier 12, out of 9 instants in winter, summer, around the "
         "daylight-saving switches and new year x the window edges), every zone x every lifetime unit on the "
         "issuing side, and a seeded share of all older families moved out of the starting zone (random 75%, sp-clock "
-        "60%, others 15%).  Every produced Response "
+        "60%, others 15%).  THE REQUESTER'S CONSUMER ENDPOINTS AS CONFIGURED: 16 configurations of "
+        "assertion_consumer_service covering every documented spelling of an endpoint specification (bare URL / (URL, "
+        "binding) / (URL, binding, index); tuple or list; index int or decimal text, 0, not consecutive, out of list "
+        "order), one or several consumer URLs per binding, one binding only, the same URL twice, and the mixtures of "
+        "spellings x the consumer URL the provider chooses (EVERY URL the requester configures, its two usual ones, "
+        "its logout URL, a foreign URL) x the binding the Response travels on (HTTP-POST / HTTP-Redirect), requester "
+        "rotating over the three (deep tier: all three); the requester's metadata the provider loads is rendered from "
+        "the same specifications (bare URL under metadata.DEFAULT_BINDING, read live); and a seeded share of all older "
+        "families that are shown to a service provider (random 50%, sp-addr 40%, sp-wants 25%, lattice 20%, others 15%) "
+        "gets its two usual consumer URLs written in one of 7 other spellings.  Every produced Response "
         "is read by the independent reader (xml.etree), its signatures verified through the stand-in under the IdP "
         "certificate, and (where an SP setting is part of the case) fed to a real Saml2Client.  non-trivial = distinct "
         "(option cell, name-id source/format/policy, policy shape, farg shape, algorithm source, SP verdict, sign of the "
-        "zone offset on either side)")
+        "zone offset on either side, spelling of the requester's endpoint specifications, how the chosen URL is written "
+        "there, arrival binding)")
 TRUSTED = ["xmlsec1 stand-in (harness/standin/xmlsec1.py)", "independent reader + abstraction in harness/c09.py",
            "SP acceptance models C01/C04/C05/C06 (each tied to the code by its own check)",
            "translator v2 harness/py2coq2.py + coq/theories/Base/Py2.v (semantics and trusted base: notes/translator_v2.md); "
@@ -55,7 +65,10 @@ TRUSTED = ["xmlsec1 stand-in (harness/standin/xmlsec1.py)", "independent reader 
            "Entity._issuer, Entity.sign; ident.py IdentDB.nim_args, IdentDB.get_nameid; argtree.py is_set (the test of "
            "Server.update_farg); and, into coq/gen/C09Src2g.v / C09/Source2g.v, server.py Server.gather_authn_response_args "
            "after harness/c09.py:_CallShapes rewrote two call shapes the translator refuses (f(x, **d) -> f(x, d) for "
-           "self.ident.find_nameid; args['policy'].get_nameid_format(e) -> policy_get_nameid_format(args['policy'], e)).  "
+           "self.ident.find_nameid; args['policy'].get_nameid_format(e) -> policy_get_nameid_format(args['policy'], e)); and, "
+           "into coq/gen/C09Src2e.v / C09/Source2e.v, config.py Config.endpoint and client_base.py Base.service_urls (the "
+           "receiving side's reading of its own consumer endpoints: pairs and indexed triples, tuple or list; a bare str "
+           "specification is outside the translator's fragment; externals Config.getattr and type()).  "
            "Trusted there: the encodings of C09/Source2.v (objects as attribute records, the "
            "policy as a dict of section dicts, module constants inlined with their live values) and the stated "
            "premises about external calls (registration_info, factory, instant, not_on_or_after, Issuer/NameID "
@@ -74,6 +87,9 @@ ASSUMPTIONS = [
     "the signature algorithms used are those the stand-in implements (no RIPEMD160 digest)",
     "a signature made with the IdP key verifies under the certificate in the same metadata (C03's ground)",
     "the composed acceptance models cover bearer confirmation: the SP is not run for a preset non-bearer method",
+    "an endpoint specification is one of the three documented spellings (docs/howto/config.rst, 'endpoints'); the "
+    "dict form that only metadata generation understands, 1- and 4-member sequences and a non-numeric index are not "
+    "configurations; a bare URL is published under metadata.DEFAULT_BINDING of the service, a missing index by position",
 ]
 
 SERVER_PY = os.path.join(env.SRC, "saml2", "server.py")
@@ -143,8 +159,14 @@ def live_values():
     import saml2.saml as S
     import saml2.xmldsig as ds
 
+    import saml2.metadata as M
+
     d = ds.DefaultSignature()
+    acs_default = M.DEFAULT_BINDING.get("assertion_consumer_service")
+    if not isinstance(acs_default, str):
+        raise RuntimeError("metadata.DEFAULT_BINDING['assertion_consumer_service'] missing or not a str")
     return {
+        "acs_default_binding": acs_default,
         "default_sign_alg": d.get_sign_alg(), "default_digest_alg": d.get_digest_alg(),
         "sig_allowed": [l for _, l in ds.SIG_ALLOWED_ALG], "digest_allowed": [l for _, l in ds.DIGEST_ALLOWED_ALG],
         "SCM_BEARER": S.SCM_BEARER, "NAMEID_FORMAT_PERSISTENT": S.NAMEID_FORMAT_PERSISTENT,
@@ -156,7 +178,7 @@ def regenerate_tables(ctx):
     t = live_tables()
     pd = t["param_defaults"]
     L = ["(* GENERATED by harness/c09.py from saml2/server.py (gather_authn_response_args param_defaults),",
-         "   saml2/assertion.py (Policy.get_lifetime / get_nameid_format defaults), saml2.xmldsig and saml2.saml",
+         "   saml2/assertion.py (Policy.get_lifetime / get_nameid_format defaults), saml2.xmldsig, saml2.saml and saml2.metadata",
          "   (live values) — do not edit *)",
          "From Coq Require Import String List ZArith.", "Import ListNotations.", "Open Scope string_scope.", ""]
     for k in ("sign_response", "sign_assertion", "best_effort", "encrypt_assertion", "encrypted_advice_attributes"):
@@ -166,7 +188,7 @@ def regenerate_tables(ctx):
     L.append("Definition param_default_names : list string := %s." % cq(list(pd.keys())))
     L.append("Definition param_default_is_none : list string := %s." % cq([k for k, v in pd.items() if v is None]))
     L.append("Definition lifetime_default : list (string * Z) := %s." % cq([(k, v) for k, v in t["lifetime_default"].items()]))
-    for k in ("nameid_format_default", "default_sign_alg", "default_digest_alg"):
+    for k in ("nameid_format_default", "default_sign_alg", "default_digest_alg", "acs_default_binding"):
         L.append("Definition %s : string := %s." % (k, cq(t[k])))
     for k in ("sig_allowed", "digest_allowed"):
         L.append("Definition %s : list string := %s." % (k, cq(t[k])))
@@ -183,6 +205,12 @@ def regenerate_tables(ctx):
     from harness import py2coq2
     src2 = py2coq2.regenerate(os.path.join(common.GEN, "C09Src2.v"), src2_items())
     src2g = regenerate_gather(os.path.join(common.GEN, "C09Src2g.v"))
+    src2e = py2coq2.regenerate(os.path.join(common.GEN, "C09Src2e.v"), src2e_items())
+    for k in ("obligations", "discharged"):
+        src2g[k] += src2e[k]
+    for k in ("untranslatable", "translated"):
+        src2g[k] = list(src2g[k]) + list(src2e[k])
+    src2g["changed"] = bool(src2g["changed"]) or bool(src2e["changed"])
     return {"file": "coq/gen/C09Tables.v", "param_defaults": {k: repr(v) for k, v in pd.items()},
             "lifetime_default": t["lifetime_default"],
             "changed": bool(changed) or bool(src2["changed"]) or bool(src2g["changed"]),
@@ -281,6 +309,23 @@ def src2_items():
     ]
 
 
+def src2e_items():
+    """the receiving side's reading of its own consumer endpoints (-> coq/gen/C09Src2e.v, C09/Source2e.v):
+    config.py Config.endpoint and client_base.py Base.service_urls; Config.getattr and type() are externals."""
+    sdir = os.path.join(env.SRC, "saml2")
+    ext = [("getattr_ext", "pyval -> pyval -> pyval -> pyval"), ("type_ext", "pyval -> pyval")]
+    return [
+        (os.path.join(sdir, "config.py"), "Config.endpoint", {
+            "name": "src2_endpoint", "params": ["self", "service", "binding", "context"], "extra_params": ext,
+            "calls": {"self.getattr": lambda a: "(getattr_ext v_self %s %s)" % tuple(a), "type": lambda a: "(type_ext %s)" % a[0]},
+            "globals": {"tuple": '(PStr "tuple")', "list": '(PStr "list")'}}),
+        (os.path.join(sdir, "client_base.py"), "Base.service_urls", {
+            "name": "src2_service_urls", "params": ["self", "binding"], "extra_params": ext,
+            "calls": {"self.config.endpoint":
+                      lambda a: '(src2_endpoint getattr_ext type_ext (p2_attr v_self "config") %s %s %s)' % tuple(a)}}),
+    ]
+
+
 class _CallShapes(ast.NodeTransformer):
     """Two call shapes that py2coq2 refuses, rewritten into calls of spec'd externals before translation.  Both
     concern only HOW an external callee is reached, never a decision of the function:
@@ -376,9 +421,39 @@ US_BACK = 1699164000         # 2023-11-05T06:00:00Z: EDT -> EST (local 02:00 -> 
 US_FWD = 1710054000          # 2024-03-10T07:00:00Z: EST -> EDT
 
 
-def sp_md(entity_id, ra=None):
+def acs_spec(e):
+    """an endpoint specification of a case -> the Python value written into the configuration.
+    ["bare", url] | ["pair", "tuple"|"list", url, binding] | ["triple", "tuple"|"list", url, binding, index]"""
+    if e[0] == "bare":
+        return e[1]
+    v = list(e[2:])
+    return tuple(v) if e[1] == "tuple" else v
+
+
+def default_acs(entity_id):
     post, red = REQUESTERS[entity_id]
-    x = world.sp_descriptor(entity_id, [("sp", None)], acs=[(POST, post, 1), (REDIRECT, red, 2)])
+    return [["pair", "tuple", post, POST], ["pair", "tuple", red, REDIRECT]]
+
+
+def publish(acs):
+    """what the requester's metadata shows for these specifications, by the documentation (docs/howto/config.rst,
+    'endpoints'; written independently of saml2.metadata.do_endpoints): (binding, location, index) per specification,
+    a bare URL under the default binding of the service, a missing index 'based on the position in the list'."""
+    out, i = [], 1
+    for e in acs:
+        if e[0] == "bare":
+            out.append((live_values()["acs_default_binding"], e[1], i))
+            i += 1
+        elif e[0] == "pair":
+            out.append((e[3], e[2], i))
+            i += 1
+        else:
+            out.append((e[3], e[2], int(e[4])))
+    return out
+
+
+def sp_md(entity_id, ra=None, acs=None):
+    x = world.sp_descriptor(entity_id, [("sp", None)], acs=publish(acs if acs is not None else default_acs(entity_id)))
     if ra is not None:
         ext = ('<md:Extensions><mdrpi:RegistrationInfo xmlns:mdrpi="urn:oasis:names:tc:SAML:metadata:rpi" '
                'registrationAuthority=%s/></md:Extensions>' % quoteattr(ra))
@@ -435,7 +510,9 @@ def _memo_keys():
 
 def get_idp(case):
     cfg = case["cfg"]
-    key = json.dumps([cfg, case["ra"], case["args"]["sp"]], sort_keys=True)
+    s = case["spside"]
+    acs_of = {s["me"]: s["acs"]} if s is not None and s.get("acs") is not None else {}
+    key = json.dumps([cfg, case["ra"], case["args"]["sp"], acs_of], sort_keys=True)
     idp = _idp_cache.get(key)
     if idp is None:
         over = {}
@@ -444,7 +521,7 @@ def get_idp(case):
             if cfg[k_case] is not None:
                 over[k_conf] = cfg[k_case]
         over["idp_policy"] = py_policy(cfg["pol"])
-        mds = [sp_md(e, case["ra"] if e == case["args"]["sp"] else None) for e in REQUESTERS]
+        mds = [sp_md(e, case["ra"] if e == case["args"]["sp"] else None, acs_of.get(e)) for e in REQUESTERS]
         idp = world.make_idp(metadata_xml=mds, **over)
         if len(_idp_cache) > 64:
             _idp_cache.clear()
@@ -669,9 +746,9 @@ def _farg_dict(f):
 
 def sp_over(case):
     s = case["spside"]
-    post, red = REQUESTERS[s["me"]]
+    acs = s["acs"] if s.get("acs") is not None else default_acs(s["me"])
     over = {"entityid": s["me"], "metadata_xml": [world.default_idp_md(), world.default_other_md()],
-            "sp_endpoints": {"assertion_consumer_service": [(post, POST), (red, REDIRECT)],
+            "sp_endpoints": {"assertion_consumer_service": [acs_spec(e) for e in acs],
                              "single_logout_service": [(world.SP_SLO_REDIRECT, REDIRECT)]}}
     for k, ck in (("wr", "sp_want_response_signed"), ("wa", "sp_want_assertions_signed"),
                   ("wor", "sp_want_assertions_or_response_signed")):
@@ -782,6 +859,7 @@ def abbr_strings():
                "https://nobody.example.org/", "https://a.example.org", "/came/from", "req-1", "req-2", "other-req",
                "default", "example.org", "a@example.org"]
               + list(REQUESTERS) + [u for v in REQUESTERS.values() for u in v] + t["sig_allowed"] + t["digest_allowed"]
+              + [u + x for v in REQUESTERS.values() for u in v for x in ("-b", "-c")] + [world.SP_SLO_REDIRECT]
               + ["weeks", "days", "hours", "minutes", "seconds", "milliseconds", "microseconds"] + ATTR_NAMES
               + [v for v in UNI if all(0x20 <= ord(c) <= 0x7E for c in v)]):
         if x not in out:
@@ -859,6 +937,18 @@ def cq_algs(p):
     return "None" if p is None else "(Some (%s, %s))" % (cs(p[0]), cs(p[1]))
 
 
+def cq_acs(acs):
+    out = []
+    for e in acs:
+        if e[0] == "bare":
+            out.append("ABare %s" % cs(e[1]))
+        elif e[0] == "pair":
+            out.append("APair %s %s" % (cs(e[2]), cs(e[3])))
+        else:
+            out.append("AIndexed %s %s %s" % (cs(e[2]), cs(e[3]), cs(str(e[4]))))
+    return "[%s]" % "; ".join(out)
+
+
 def coq_input(case):
     c, a = case["cfg"], case["args"]
     cfg = "(mk_cfg %s %s %s %s %s %s %s)" % (cs(IDP), cq_cfgv(c["sr"]), cq_cfgv(c["sa"]), cso(c["salg"]),
@@ -898,8 +988,7 @@ def coq_case(case, obs):
     if s is None or obs["k"] != "issued":
         sp = "None"
     else:
-        post, red = REQUESTERS[s["me"]]
-        specs = "[C04.Model.EP %s %s; C04.Model.EP %s %s]" % (cs(post), cs(POST), cs(red), cs(REDIRECT))
+        specs = cq_acs(s["acs"] if s.get("acs") is not None else default_acs(s["me"]))
         side = "(mk_sp %s %s %s %s %s %s %s %s %s %s %s %s)" % (
             cs(s["me"]), cs(IDP), specs, cs(s["binding"]), cq_optv(s["wr"]), cq_optv(s["wa"]), cq_optv(s["wor"]),
             cso(s["atd"]), cq(bool(s["allow_unsolicited"])), cq([(cs(k), cs(v)) for k, v in s["outstanding"]]), cq(s["now"]),
@@ -932,9 +1021,10 @@ def mk_args(**kw):
 
 
 def mk_spside(me=world.SP_ID, wr=None, wa=None, wor=None, dt=60, atd=None, allow_unsolicited=False,
-              outstanding=(("req-1", "/came/from"),), binding=POST, now=NOW):
+              outstanding=(("req-1", "/came/from"),), binding=POST, now=NOW, acs=None):
+    """acs = the requester's assertion_consumer_service specifications as configured (None = the usual two pairs)"""
     return {"me": me, "wr": wr, "wa": wa, "wor": wor, "atd": atd, "allow_unsolicited": allow_unsolicited,
-            "outstanding": [list(x) for x in outstanding], "binding": binding, "now": now + dt}
+            "outstanding": [list(x) for x in outstanding], "binding": binding, "now": now + dt, "acs": acs}
 
 
 def mk_case(tag, cfg=None, args=None, ra=None, stored=(), now=NOW, spside=None, tz=(None, None)):
@@ -1222,6 +1312,91 @@ def gen_zone(rng, thorough):
     return out
 
 
+# ---- the requester's consumer endpoints as configured ----------------------------------------------------
+def acs_urls(me):
+    """(P1, R1, P2, R2): the two usual consumer URLs of a requester and a second one per binding"""
+    post, red = REQUESTERS[me]
+    return post, red, post + "-b", red + "-b"
+
+
+def _pair(u, b, seq="tuple"):
+    return ["pair", seq, u, b]
+
+
+def _tri(u, b, i, seq="tuple"):
+    return ["triple", seq, u, b, i]
+
+
+def acs_shapes(me):
+    """name -> endpoint specifications: every documented spelling (bare URL / (URL, binding) / (URL, binding, index);
+    tuple or list; index an int or its decimal text, 0, not consecutive, not in list order), one or several
+    consumer URLs per binding, one binding only, and the mixtures of spellings."""
+    p1, r1, p2, r2 = acs_urls(me)
+    return {
+        "pairs": [_pair(p1, POST), _pair(r1, REDIRECT)],
+        "pairs-list": [_pair(p1, POST, "list"), _pair(r1, REDIRECT, "list")],
+        "pairs-many": [_pair(p1, POST), _pair(r1, REDIRECT), _pair(p2, POST), _pair(r2, REDIRECT, "list")],
+        "triples": [_tri(r1, REDIRECT, 1), _tri(p1, POST, 2), _tri(p2, POST, 3)],
+        "triples-list": [_tri(p1, POST, "7", "list"), _tri(p2, POST, 8, "list"), _tri(r1, REDIRECT, 0, "list")],
+        "triples-many": [_tri(p2, POST, 12), _tri(r2, REDIRECT, "3", "list"), _tri(r1, REDIRECT, 2), _tri(p1, POST, 1, "list"),
+                         _tri(p1 + "-c", POST, 40), _tri(r1 + "-c", REDIRECT, 41)],
+        "pair+triple": [_pair(p1, POST), _tri(p2, POST, 5), _tri(r1, REDIRECT, "6", "list")],
+        "triple-post-only": [_tri(p1, POST, 1)],
+        "pair-redirect-only": [_pair(r1, REDIRECT)],
+        "bare": [["bare", p1]],
+        "bare-two": [["bare", p1], ["bare", p2]],
+        "bare+pair-other-binding": [["bare", p1], _pair(r1, REDIRECT)],
+        "bare+pair-same-binding": [["bare", p1], _pair(p2, POST)],
+        "triple+bare+pair": [_tri(p2, POST, 1), ["bare", p1], _pair(r1, REDIRECT, "list")],
+        "bare-and-pair-same-url": [["bare", p1], _pair(p1, POST), _pair(r1, REDIRECT)],
+        "same-url-both-bindings": [_pair(p1, POST), _tri(p1, REDIRECT, 2)],
+    }
+
+
+# spellings under which a requester still publishes its two usual consumer URLs (used to respell older families)
+RESPELL = ("pairs-list", "pairs-many", "triples", "triples-list", "triples-many", "pair+triple", "bare-and-pair-same-url")
+
+
+def gen_acs(rng, thorough):
+    """the requester's consumer endpoints as configured x the consumer URL the provider chooses (every URL the
+    requester configures, the two usual ones, its logout URL, a foreign one) x the binding the Response travels on."""
+    out = []
+    ids = list(REQUESTERS)
+    k = 0
+    for name in acs_shapes(world.SP_ID):
+        for me in (ids if thorough else [ids[k % len(ids)]]):
+            acs = acs_shapes(me)[name]
+            p1, r1, _, _ = acs_urls(me)
+            dests = []
+            for d in [e[1] if e[0] == "bare" else e[2] for e in acs] + [p1, r1, world.SP_SLO_REDIRECT,
+                                                                       "https://elsewhere.example.org/acs"]:
+                if d not in dests:
+                    dests.append(d)
+            for dest in dests:
+                for binding in (POST, REDIRECT):
+                    sr, sa = rng.choice([(True, None), (True, None), (None, True), (True, True)])
+                    # signature demands the Response meets: the addressing decides the verdict in this family
+                    w = rng.choice([w for w in WANTS if (sr or w[0] is False) and (sa or w[1] in (None, False))])
+                    out.append(mk_case("acs", mk_cfg(), mk_args(sign_response=sr, sign_assertion=sa, sp=me, dest=dest),
+                                       spside=mk_spside(me=me, wr=w[0], wa=w[1], wor=w[2], binding=binding,
+                                                        acs=copy.deepcopy(acs))))
+        k += 1
+    return out
+
+
+def spread_acs(cases, ar):
+    """the families made before this dimension existed keep their cases; a seeded part of those that are shown to a
+    service provider gets that provider's usual two consumer URLs written in another spelling (own PRNG, drawn after
+    everything else, so that the cases themselves stay what they were)."""
+    share = {"random": 0.5, "sp-addr": 0.4, "sp-wants": 0.25, "lattice": 0.2}
+    for c in cases:
+        s = c["spside"]
+        if s is None or c["tag"] == "acs":
+            continue
+        if ar.random() < share.get(c["tag"], 0.15):
+            s["acs"] = copy.deepcopy(acs_shapes(s["me"])[ar.choice(RESPELL)])
+
+
 def spread_zones(cases, zr):
     """the families made before the time-zone dimension existed keep their cases; a seeded part of them is moved out of
     the starting zone (own PRNG, drawn after everything else, so that the cases themselves stay what they were)."""
@@ -1249,6 +1424,11 @@ def generate(ctx):
     import random
 
     spread_zones(cases, random.Random(rng.getrandbits(64)))
+    # the dimension added in round 6 draws after everything older (the older cases stay what they were)
+    acs_cases = gen_acs(rng, ctx.thorough)
+    spread_zones(acs_cases, random.Random(rng.getrandbits(64)))
+    spread_acs(cases, random.Random(rng.getrandbits(64)))
+    cases += acs_cases
     for c in cases:
         if c["args"]["authn"] == "empty":
             c["args"]["authn"] = [None, None]
@@ -1273,8 +1453,21 @@ def nontrivial(case, obs):
            None if not isinstance(a["farg"], dict) else tuple(v is not None for v in a["farg"].values()),
            a["sign_alg"], c["salg"], a["digest_alg"], c["dalg"], a["irt"] is None, a["dest"] == "", spv,
            _sign(zone_offset(case_tz(case)[0], case["now"])),
-           None if case["spside"] is None else _sign(zone_offset(case_tz(case)[1], case["spside"]["now"])))
+           None if case["spside"] is None else _sign(zone_offset(case_tz(case)[1], case["spside"]["now"])),
+           acs_key(case))
     return key
+
+
+def acs_key(case):
+    """spelling of the requester's consumer endpoints, how the chosen URL is written there, arrival binding"""
+    s = case["spside"]
+    if s is None:
+        return None
+    acs = s["acs"] if s.get("acs") is not None else default_acs(s["me"])
+    d = case["args"]["dest"]
+    how = sorted({(e[0], None if e[0] == "bare" else e[1], None if e[0] == "bare" else e[3] == s["binding"])
+                  for e in acs if (e[1] if e[0] == "bare" else e[2]) == d})
+    return (tuple((e[0], None if e[0] == "bare" else e[1]) for e in acs), tuple(how), s["binding"] == POST)
 
 
 def _sign(n):
@@ -1283,8 +1476,15 @@ def _sign(n):
 
 def histogram(cases, observed):
     h = {"by_tag": {}, "outcome": {}, "signed": {}, "nameid_source": {}, "nameid_format": {}, "sp": {}, "attrs_per_identity": {},
-         "lifetime_seconds": {}, "zone_issuer_hours": {}, "zone_receiver_hours": {}}
+         "lifetime_seconds": {}, "zone_issuer_hours": {}, "zone_receiver_hours": {}, "acs_spelling": {},
+         "arrival_binding": {}}
     for c, o in zip(cases, observed):
+        if c["spside"] is not None:
+            acs = c["spside"].get("acs")
+            k = "usual two pairs" if acs is None else "+".join(sorted({e[0] if e[0] == "bare" else "%s(%s)" % (e[0], e[1]) for e in acs}))
+            h["acs_spelling"][k] = h["acs_spelling"].get(k, 0) + 1
+            b = c["spside"]["binding"].rsplit(":", 1)[-1]
+            h["arrival_binding"][b] = h["arrival_binding"].get(b, 0) + 1
         h["by_tag"][c["tag"]] = h["by_tag"].get(c["tag"], 0) + 1
         z = "%+.2f" % (zone_offset(case_tz(c)[0], c["now"]) / 3600.0) if case_tz(c)[0] is not None else "start"
         h["zone_issuer_hours"][z] = h["zone_issuer_hours"].get(z, 0) + 1
